@@ -1,20 +1,17 @@
 #!/bin/sh
 cd /verif
 run() { echo "=== $1 $2 -> $3"; tools/seed_eval.py $1 $2 quick $3 2>&1 | tail -4; }
-run c01 F "C01 C07"
-run c02 E "C02 C01"
-run c03 F "C03"
-run c04 E "C04 C16"
-run c04 F "C04 C08"
-run c06 E "C06 C12"
-run c07 E "C07"
-run c09 F "C09 C16"
-run c13 E "C13"
-run c14 F "C14"
-run c17 E "C17"
-run c17 F "C17 C08"
-run c18 E "C18"
-run c18 F "C18"
-run c19 E "C19"
-run c20 E "C20"
-run c20 F "C20"
+run c01 H "C01"
+run c06 G "C06 C02"
+run c06 H "C06 C11"
+run c08 G "C08 C12"
+run c08 H "C08 C05"
+run c09 H "C09"
+run c10 G "C10"
+run c11 H "C11"
+run c13 H "C13"
+run c17 H "C17"
+run c19 H "C19"
+run c20 G "C20"
+run c03 G "C03 C16"
+run c07 H "C07 C16"
